@@ -251,6 +251,7 @@ class Program(object):
     def __init__(self, facts):
         self.facts = facts
         self._bt = {}
+        self.stop_bodies = set()  # keys of bodies whose parameters are origin leaves
 
     def bt(self, body):
         r = self._bt.get(body.key)
@@ -311,7 +312,10 @@ class Program(object):
                         followed = True
                         self._orig(tb, rt, is_source, out, seen, depth + 1)
             if not followed:
-                for a in t[2]:
+                ops = body.blocks[bb]["term"]["args"]
+                for i, a in enumerate(t[2]):
+                    if i < len(ops) and _scalar_operand(ops[i]):
+                        continue  # integers / booleans carry no object identity
                     self._orig(body, a, is_source, out, seen, depth)
         elif k == "field":
             adt = t[3]
@@ -346,7 +350,7 @@ class Program(object):
             self._closure_param(body, i, is_source, out, seen, depth)
             return
         callers = self.facts.callers().get(body.key, [])
-        if not callers:
+        if not callers or body.key in self.stop_bodies:
             out.add(("param", body.key, i))
             return
         for cb, bb in callers:
@@ -412,6 +416,23 @@ class Program(object):
                 self._orig(parent, args[0], is_source, out, seen, depth + 1)
             else:
                 out.add(("param", body.key, i))
+
+
+SCALARS = set(["usize", "u8", "u16", "u32", "u64", "u128", "isize", "i8", "i16", "i32", "i64", "i128", "bool", "char", "()"])
+
+
+def _scalar_operand(op):
+    if op.get("k") == "const":
+        return "fn" not in op and "closure" not in op and op.get("ty", "").lstrip("&").replace("mut ", "") in SCALARS
+    pl = op.get("place")
+    if pl is None:
+        return False
+    ty = pl.get("ty", "")
+    while ty.startswith("&"):
+        ty = ty[1:].lstrip()
+        if ty.startswith("mut "):
+            ty = ty[4:]
+    return ty in SCALARS
 
 
 def _mentions_closure(t, key):
